@@ -116,6 +116,12 @@ CLAIMED = {
         note="Conditions over 16 atoms (target symbols, promptless target-derived options, target-gated prompt, force-selected option, user options, undefined name; all six relations incl. between two free options) combined with ! && ||; two targets; 288 assignments per program; env-variable expansion and deprecated-options appendix not exercised.",
         design_ref="DESIGN.md section 3, C20",
     ),
+    "C04": dict(
+        technique="Programs of the documented grammar rendered in lexical variants and parsed by both parsers; the finalised trees, abstracted into the definition records of spec/KEval.tla, are interpreted by TLC (spec/MC_Parse.tla) under every assignment against the specification's Flatten of the abstract program; trees, conditions and outputs are also compared structurally across parsers and variants, and for the shipped fixtures",
+        text="Model checking + translation comparison: for each program TLC evaluates, under all assignments of candidate user values, the configuration given by the tree of parser 1, the tree of parser 2 and the specification's flattening of the abstract program, and requires the three to coincide; the harness additionally requires both parsers to accept every variant, and entries / order / nesting / types / prompts / help / every condition / sdkconfig, header and JSON outputs to coincide across parsers and lexical variants.",
+        note="Lexical variants: property order, separate prompt, comments / blank lines, line continuation, help blocks, tabs, rsource; macros, option env, $(shell), exotic quoting are outside the generated family; order of Kconfig.choices/menus/comments left open; fixtures parsed with IDF_TARGET etc. set.",
+        design_ref="DESIGN.md section 3, C04",
+    ),
 }
 
 REASON_PENDING = "check not built yet in this session (planned in DESIGN.md section 3); not claimed until its TLA+ model and conformance harness exist"
